@@ -28,3 +28,5 @@ def run(db, rep, tier):
     rep.floor('B.allocfail', data['allocfail_paths'], 500)
     rep.floor('B.allocsites', len(sites), 3)
     rep.sample('B.allocfail', 'allocation sites: ' + ', '.join(sites))
+    import fixtures
+    fixtures.controls_own(rep)
